@@ -99,6 +99,11 @@ pub fn spec_frame(bytes: &[u8]) -> Option<(i32, Vec<(u8, String)>)> {
         return None;
     }
     let text = std::str::from_utf8(bytes).ok()?;
+    Some(spec_frame_text(text))
+}
+
+/// the same transcription on a text (no BOM handling at all).
+pub fn spec_frame_text(text: &str) -> (i32, Vec<(u8, String)>) {
     let mut lines: Vec<&str> = text.split('\n').map(str::trim_end).collect();
     if text.ends_with('\n') || text.is_empty() {
         lines.pop();
@@ -135,7 +140,7 @@ pub fn spec_frame(bytes: &[u8]) -> Option<(i32, Vec<(u8, String)>)> {
         }
         calls.push((section_idx(sec), (*l).to_owned()));
     }
-    Some((version, calls))
+    (version, calls)
 }
 
 /// the same transcription on a list of lines (no BOM, LF-joined): the indices of the lines that
